@@ -34,8 +34,10 @@ Inductive stop :=
 (* frames a conformant reader accepts, in order, and why it stops *)
 Fixpoint scan (server negotiated open:bool) (fs:list (frame*bool)) (t:ptail) : list frame * stop :=
   match fs with
-  | (f, _) :: r =>
-      if violates server negotiated open f then ([], SViolation f)
+  | (f, minimal) :: r =>
+      (* a control frame whose 7-bit length field is 126 or 127 is refused on that field alone
+         (RFC 6455 5.5: control frames carry at most 125 bytes; 5.2: minimal length encoding) *)
+      if violates server negotiated open f || (is_control (opcode f) && negb minimal) then ([], SViolation f)
       else if opcode f =? 8 then ([f], SClosed f)
       else let '(g, s) := scan server negotiated (next_open open f) r t in (f :: g, s)
   | [] =>
